@@ -1,6 +1,7 @@
 package rules
 
 import (
+	"os"
 	"fmt"
 	"strings"
 
@@ -241,49 +242,57 @@ func checkAccountedFormula(P *core.Program, R *core.Report) {
 		return
 	}
 	ff := P.Facts(fn2)
-	ok2 := false
+	// the coin written into TotalTokens[j] (whole, or through its Amount field) must carry
+	// amm reserve + recorded non-amm part of the same record, however the sum is spelled
+	role := func(_ string, v ssa.Value) (string, bool) {
+		if v == nil {
+			return "", false
+		}
+		amm, non, other := false, false, false
+		for _, o := range ff.Origins(v) {
+			switch {
+			case strings.Contains(o.Path, "PoolAssets") && (strings.HasSuffix(o.Path, ".Amount") || strings.HasSuffix(o.Path, ".Token")):
+				amm = true
+			case strings.Contains(o.Path, "NonAmmPoolTokens") && (strings.HasSuffix(o.Path, ".Amount") || strings.HasSuffix(o.Path, "[]")):
+				non = true
+			case o.Kind == "call" && strings.HasSuffix(o.Name, "AccountedPool.GetNonAmmTokenBalance") && strings.HasPrefix(o.Path, "#0"):
+				non = true // the record's own accessor for the same element
+			case o.Kind == "zero" || (o.Kind == "call" && strings.HasSuffix(o.Name, "math.ZeroInt")):
+				// the default when the denom has no recorded non-amm part
+			default:
+				other = true
+			}
+		}
+		switch {
+		case other:
+			return "", false
+		case amm && !non:
+			return "AMM", true
+		case non && !amm:
+			return "NONAMM", true
+		}
+		return "", false
+	}
+	want := core.ParsePoly("AMM + NONAMM")
+	ok2, stored := false, false
 	for _, b := range fn2.Blocks {
 		for _, in := range b.Instrs {
 			st, ok := in.(*ssa.Store)
 			if !ok {
 				continue
 			}
-			fa, isFA := st.Addr.(*ssa.FieldAddr)
-			if !isFA || core.FieldName(fa.X.Type(), fa.Field) != "Amount" {
+			ia, isIA := st.Addr.(*ssa.IndexAddr)
+			if !isIA {
 				continue
 			}
-			a, _, isAdd := mathCall(ff, st.Val, "Add")
-			if !isAdd || len(a) != 2 {
+			if _, isF := fieldLoad(ff, ia.X, "TotalTokens"); !isF {
 				continue
 			}
-			// amm token amount + φ(0, nonAmmPoolToken.Amount)
-			ammSide := false
-			for _, o := range ff.Origins(a[0]) {
-				if strings.Contains(o.Path, "PoolAssets") && strings.HasSuffix(o.Path, ".Amount") {
-					ammSide = true
-				}
-			}
-			nonAmm := false
-			for _, o := range ff.Origins(a[1]) {
-				if strings.Contains(o.Path, "NonAmmPoolTokens") && strings.HasSuffix(o.Path, ".Amount") {
-					nonAmm = true
-				}
-			}
-			if ammSide && nonAmm {
+			stored = true
+			if p, okR := ff.PolyOf(st.Val).Rename(role); okR && p.Equal(want) {
 				ok2 = true
-			}
-		}
-	}
-	// the updated token is written into TotalTokens[j] and the record is stored (unless the pool has no accounted pool)
-	stored := false
-	for _, b := range fn2.Blocks {
-		for _, in := range b.Instrs {
-			if st, ok := in.(*ssa.Store); ok {
-				if ia, isIA := st.Addr.(*ssa.IndexAddr); isIA {
-					if _, isF := fieldLoad(ff, ia.X, "TotalTokens"); isF {
-						stored = true
-					}
-				}
+			} else if os.Getenv("ELYSLINT_POLY_DEBUG") != "" {
+				fmt.Fprintf(os.Stderr, "c11 ammchange: %s => %s ok=%v\n", ff.PolyOf(st.Val), p, okR)
 			}
 		}
 	}
